@@ -252,6 +252,31 @@ def case_inversion(rng, cid):
     return RCase("C07", code, "inversion/" + ("dyn" if dyn else "static") + ("/async" if asy else ""))
 
 
+def case_unit(rng, cid):
+    """C01: functions without a return type (sync and async): only the trace shows that the original function ran"""
+    asy = rng.random() < 0.7
+    n = rng.choice([0, 1, 2, 3])
+    decls, vals, args = params(rng, n)
+    parts = " ".join('s.push_str(&format!("|{}", %s));' % v for v in vals)
+    a = "async " if asy else ""
+    w = "block_on(%s)" if asy else "%s"
+    inmod = rng.random() < 0.5
+    fbody = '{ %slet mut s = format!("{}@{}", NAME, addr(deps)); %s rec(s); }' % ("std::future::ready(()).await; " if asy and rng.random() < 0.5 else "", parts)
+    f0 = "pub %sfn u0(%s) %s" % (a, ", ".join(["deps: &impl A"] + decls), fbody.replace("NAME", '"u0"'))
+    f1 = "pub %sfn u1(%s) %s" % (a, ", ".join(["deps: &impl A"] + decls), fbody.replace("NAME", '"u1"'))
+    calls = []
+    for nm in (["u0", "u1"] if inmod else ["u0"]):
+        d = w % ("%s%s(%s)" % ("m::" if inmod else "", nm, ", ".join(["&app"] + args)))
+        mth = w % ("app.%s(%s)" % (nm, ", ".join(args)))
+        calls.append("{ %s; let t0 = take(); %s; let t1 = take(); ok &= t0 == t1 && t0.len() == 1; log.push(format!(\"{:?} {:?}\", t0, t1)); }" % (d, mth))
+    client = "let app = Impl::new(App { tag: 6 }); let mut ok = true; let mut log: Vec<String> = vec![]; %s report(%d, \"C01\", ok, log.join(\" ; \"));" % (" ".join(calls), cid)
+    if inmod:
+        code = "pub mod k%d { use super::*; pub struct W(pub i64);\n#[entrait(pub M)]\npub mod m { use super::*; use super::W; %s %s }\npub fn run() { %s }\n}" % (cid, f0, f1, client)
+    else:
+        code = "pub mod k%d { use super::*; pub struct W(pub i64);\n#[entrait(pub Tr)]\n%s\npub fn run() { %s }\n}" % (cid, f0, client)
+    return RCase("C01", code, "unit" + ("/mod" if inmod else "/fn") + ("/async" if asy else ""))
+
+
 def build_cases(seed, tier):
     rng = random.Random(seed * 211 + 3)
     k = 5 if tier == "thorough" else 1
@@ -264,6 +289,8 @@ def build_cases(seed, tier):
         cases.append(case_trait(rng, len(cases)))
     for _ in range(40 * k):
         cases.append(case_inversion(rng, len(cases)))
+    for _ in range(24 * k):
+        cases.append(case_unit(rng, len(cases)))
     for i, c in enumerate(cases):
         c.cid = i
     return cases
